@@ -1338,8 +1338,15 @@ func (r *Resolver) authority(ctx context.Context, req, resp *dns.Msg, parentDS [
 				// zone records, so out-of-zone NSECs could otherwise
 				// satisfy canonical-coverage checks here without
 				// having been cryptographically authenticated.
-				nsec3Set := dnsutil.FilterRRsToZone(dnsutil.ExtractRRSet(resp.Ns, "", dns.TypeNSEC3), chosenSigner)
-				nsecSet := dnsutil.FilterRRsToZone(dnsutil.ExtractRRSet(resp.Ns, "", dns.TypeNSEC), chosenSigner)
+				//
+				// The same holds for everything else in the section: a record
+				// owned outside the signer zone was skipped by VerifyRRSIG as a
+				// referral remnant, so nothing authenticated it. It must not
+				// travel on under the AD bit this reply is about to get (nor
+				// bound the cached denial's lifetime with a foreign SOA).
+				resp.Ns = dnsutil.FilterRRsToZone(resp.Ns, chosenSigner)
+				nsec3Set := dnsutil.ExtractRRSet(resp.Ns, "", dns.TypeNSEC3)
+				nsecSet := dnsutil.ExtractRRSet(resp.Ns, "", dns.TypeNSEC)
 				isNegative := resp.Rcode == dns.RcodeNameError ||
 					(resp.Rcode == dns.RcodeSuccess && len(resp.Answer) == 0)
 				proofKind := middleware.ValidatedNegativeProofUnknown
